@@ -66,15 +66,15 @@ theorem addRepair_rep_other (env : Nat → Content) (sd : SlotData) (h h' : H) (
 theorem addRepair_honest (B : HBlock) (env : Nat → Content) (cap : Nat) (hwf : B.WF env cap) (sd : SlotData) (s : Shred)
     (hs : B.Honest s) (hg : Good B cap ((repGet sd.rep B.block.hash).getD (BlockData.new sd.dis.cap sd.dis.slot))) :
     repGet (addRepair env sd B.block.hash s).1.rep B.block.hash =
-        some (addShred env ((repGet sd.rep B.block.hash).getD (BlockData.new sd.dis.cap sd.dis.slot)) s).1 ∧
+        some (addShredCore env ((repGet sd.rep B.block.hash).getD (BlockData.new sd.dis.cap sd.dis.slot)) s).1 ∧
       (addRepair env sd B.block.hash s).2.1 =
-        (addShred env ((repGet sd.rep B.block.hash).getD (BlockData.new sd.dis.cap sd.dis.slot)) s).2 ∧
+        (addShredCore env ((repGet sd.rep B.block.hash).getD (BlockData.new sd.dis.cap sd.dis.slot)) s).2 ∧
       (addRepair env sd B.block.hash s).2.2 =
-        evOf (addShred env ((repGet sd.rep B.block.hash).getD (BlockData.new sd.dis.cap sd.dis.slot)) s).2 := by
+        evOf (addShredCore env ((repGet sd.rep B.block.hash).getD (BlockData.new sd.dis.cap sd.dis.slot)) s).2 := by
   have hres := (addShred_good B env cap hwf _ s hg hs).2
   unfold addRepair
-  simp only
-  generalize addShred env ((repGet sd.rep B.block.hash).getD (BlockData.new sd.dis.cap sd.dis.slot)) s = br at hres
+  simp only [addShred_of_ty _ _ s hs.ty]
+  generalize addShredCore env ((repGet sd.rep B.block.hash).getD (BlockData.new sd.dis.cap sd.dis.slot)) s = br at hres
   obtain ⟨b', r⟩ := br
   simp only at hres ⊢
   rcases hres with rfl | rfl | rfl | rfl
@@ -182,14 +182,14 @@ def shredOut (b : Bid) (res : AddRes) (evs : List Event) : Out :=
 theorem handle_shred_valid (env : Nat → Content) (cap : Nat) (st : RepairSt) (store : Store) (b : Bid) (i j : Nat)
     (s : Shred) (hout : Req.shred b i j ∈ st.outstanding) (hsl : s.slice = i) (hidx : s.idx = j)
     (hroot : rootGet st.sliceRoots (b, i) = some s.root)
-    (hlast : s.isLast = decide (lastGet st.lastSlices b = some i)) :
+    (hlast : s.isLast = decide (lastGet st.lastSlices b = some i)) (hty : s.ty = true) :
     handleResponse env cap st store (.shred (.shred b i j) b.slot s true) =
       (done st (.shred b i j), storeSet store b.slot (addRepair env (storeGet cap store b.slot) b.hash s).1,
         shredOut b (addRepair env (storeGet cap store b.slot) b.hash s).2.1
           (addRepair env (storeGet cap store b.slot) b.hash s).2.2) := by
   unfold handleResponse
   simp only [Resp.req, hout, not_true_eq_false, if_false, hsl, hidx, ne_eq, or_self, hroot, Bool.not_true,
-    Bool.false_eq_true, hlast]
+    Bool.false_eq_true, hlast, hty]
   generalize addRepair env (storeGet cap store b.slot) b.hash s = ar
   obtain ⟨sd, res, evs⟩ := ar
   simp only [shredOut]
@@ -211,7 +211,7 @@ theorem handle_shred_valid (env : Nat → Content) (cap : Nat) (st : RepairSt) (
 theorem valid_shred_eq (st : RepairSt) (b : Bid) (i j slot : Nat) (s : Shred) (sigOk : Bool)
     (hv : Valid st (.shred (.shred b i j) slot s sigOk)) :
     slot = b.slot ∧ s.slice = i ∧ s.idx = j ∧ rootGet st.sliceRoots (b, i) = some s.root ∧
-      s.isLast = decide (lastGet st.lastSlices b = some i) ∧ sigOk = true := hv
+      s.isLast = decide (lastGet st.lastSlices b = some i) ∧ s.ty = true ∧ sigOk = true := hv
 
 
 /-! ### the proven last slice indices (fix D26) -/
@@ -523,8 +523,8 @@ theorem repInv_other (B : HBlock) (env : Nat → Content) (cap : Nat) (σ : Sys)
     cases r with
     | shred b i j =>
       simp only [Resp.req, Req.bid] at hout hne
-      obtain ⟨rfl, hsl, hidx, hroot, hlast, rfl⟩ := valid_shred_eq σ.st b i j slot s sigOk hv
-      simp only [stepEv, handle_shred_valid env cap σ.st σ.store b i j s hout hsl hidx hroot hlast] at hrk ⊢
+      obtain ⟨rfl, hsl, hidx, hroot, hlast, hty, rfl⟩ := valid_shred_eq σ.st b i j slot s sigOk hv
+      simp only [stepEv, handle_shred_valid env cap σ.st σ.store b i j s hout hsl hidx hroot hlast hty] at hrk ⊢
       have hf := store_frame B env cap σ.store b s hne
       refine ⟨repInv_same B cap σ _ hinv ?_ (fun _ => rfl) rfl hrk (by rw [hf.2]) hf.1, hf.1⟩
       intro x hx
@@ -540,25 +540,22 @@ theorem repInv_other (B : HBlock) (env : Nat → Content) (cap : Nat) (σ : Sys)
 
 /-! ### responses to requests about `B` -/
 
-/-- **What the completion theorem assumes about the events.**
-    (a) *the data/coding tag (D15b)*: a shred response for `B` that passes **all** checks of the requester
-    — position `(slot, slice, index)`, the proven slice root, the last-slice flag against the proven last
-    slice index (fix D26), the leader's signature — carries the tag that matches its index (`ty`). The tag
-    is covered neither by the Merkle path nor by the signature, so the code cannot notice a responder
-    flipping it; necessary: `derail_by_tag` in `Props/C14Live.lean`.
-    (b), (c) *typing constraints of the model's wider response type, not assumptions about peers*: a slice
-    root in a response is a 32-byte hash, never the empty padding leaf (id `0`,
-    `padding_leaf_witness`); and the payload size class of a shred that verifies under the leader's
+/-- **What the completion theorem still asks of the events: only typing constraints of the model's wider
+    response type, nothing about peers.** A slice root in a response is a 32-byte hash, never the empty padding leaf
+    (id `0`, `padding_leaf_witness`); and the payload size class of a shred that verifies under the leader's
     slice root at index `j` is that of the leader's leaf `j` (the payload is what the Merkle path
     authenticates; in the model `sz` is a free attribute, `size_class_witness`).
-    Nothing is assumed any more about which variants of a slice the leader signed: a validly signed shred
-    with the other last-slice marker is admissible (`evilLast_admissible`) — it is rejected by the code. -/
+    Nothing is assumed about which variants of a slice the leader signed (a validly signed shred with the other
+    last-slice marker is admissible, `evilLast_admissible`: the code rejects it, fix D26), and - since the D15b
+    `fix:` - nothing about the unauthenticated data/coding type either: a responder may flip it, the requester drops
+    such a response and keeps the request outstanding (`evilTag_admissible`, `tag_no_longer_derails`; before the fix
+    this was an assumption, shown necessary by the witness now called `derail_by_tag_old`). -/
 def Admissible (B : HBlock) : Ev → Prop
   | .resp (.lastRoot (.last b) _ root _) => b = bidOf B → root ≠ 0
   | .resp (.sliceRoot (.root b _) root _) => b = bidOf B → root ≠ 0
   | .resp (.shred (.shred b i j) _ s sigOk) =>
     b = bidOf B → sigOk = true → s.slice = i → s.idx = j → s.root = B.root i → s.isLast = B.isLast i →
-      s.sz = B.sz i ∧ s.ty = true
+      s.sz = B.sz i
   | _ => True
 
 theorem shred_eq_of_fields (B : HBlock) (s : Shred) (i j : Nat) (h1 : s.slice = i) (h2 : s.idx = j)
@@ -585,11 +582,11 @@ def Announced (B : HBlock) (o : Out) : Prop :=
 theorem own_shred_store (B : HBlock) (env : Nat → Content) (cap : Nat) (hwf : B.WF env cap) (store : Store) (s : Shred)
     (hs : B.Honest s) (hg : Good B cap (spotOf cap B store)) :
     spotOf cap B (storeSet store B.slot (addRepair env (storeGet cap store B.slot) B.block.hash s).1) =
-        (addShred env (spotOf cap B store) s).1 ∧
+        (addShredCore env (spotOf cap B store) s).1 ∧
     (storeGet cap (storeSet store B.slot (addRepair env (storeGet cap store B.slot) B.block.hash s).1) B.slot).dis =
         (storeGet cap store B.slot).dis ∧
-    (addRepair env (storeGet cap store B.slot) B.block.hash s).2.1 = (addShred env (spotOf cap B store) s).2 ∧
-    (addRepair env (storeGet cap store B.slot) B.block.hash s).2.2 = evOf (addShred env (spotOf cap B store) s).2 := by
+    (addRepair env (storeGet cap store B.slot) B.block.hash s).2.1 = (addShredCore env (spotOf cap B store) s).2 ∧
+    (addRepair env (storeGet cap store B.slot) B.block.hash s).2.2 = evOf (addShredCore env (spotOf cap B store) s).2 := by
   obtain ⟨h1, h2, h3⟩ := addRepair_honest B env cap hwf (storeGet cap store B.slot) s hs hg
   have e1 : storeGet cap (storeSet store B.slot (addRepair env (storeGet cap store B.slot) B.block.hash s).1) B.slot =
       (addRepair env (storeGet cap store B.slot) B.block.hash s).1 := by rw [storeGet_storeSet, if_pos rfl]
@@ -774,15 +771,15 @@ theorem repInv_own (B : HBlock) (env : Nat → Content) (cap : Nat) (hwf : B.WF 
     | shred b i j =>
       simp only [Resp.req, Req.bid] at hout hb
       subst hb
-      obtain ⟨rfl, hsl, hidx, hroot, hlast, rfl⟩ := valid_shred_eq σ.st (bidOf B) i j slot s sigOk hv
+      obtain ⟨rfl, hsl, hidx, hroot, hlast, hty, rfl⟩ := valid_shred_eq σ.st (bidOf B) i j slot s sigOk hv
       obtain ⟨hi, hsr⟩ := hinv.roots i s.root hroot
       obtain ⟨_, hj⟩ := hinv.reqShred i j hout
       have hil : s.isLast = B.isLast i := by
         rw [hlast]; exact last_flag_of_inv B cap σ hinv hn i (by rw [hroot]; rfl)
-      obtain ⟨hsz, hty⟩ := hadm rfl rfl hsl hidx hsr hil
+      have hsz := hadm rfl rfl hsl hidx hsr hil
       have hseq : s = B.shred i j := shred_eq_of_fields B s i j hsl hidx hsr hil hsz hty
       have hs : B.Honest s := ⟨by rw [hsl]; exact hi, by rw [hidx]; exact hj, by rw [hsl, hidx]; exact hseq⟩
-      simp only [stepEv, handle_shred_valid env cap σ.st σ.store (bidOf B) i j s hout hsl hidx hroot hlast] at hrk ⊢
+      simp only [stepEv, handle_shred_valid env cap σ.st σ.store (bidOf B) i j s hout hsl hidx hroot hlast hty] at hrk ⊢
       have hbs : (bidOf B).slot = B.slot := rfl
       have hbh : (bidOf B).hash = B.block.hash := rfl
       simp only [hbs, hbh]
@@ -1127,8 +1124,8 @@ theorem honest_step (B : HBlock) (env : Nat → Content) (cap : Nat) (hwf : B.WF
     have hlast : (B.shred i j).isLast = decide (lastGet σ.st.lastSlices (bidOf B) = some i) :=
       (last_flag_of_inv B cap σ hinv hn i (by rw [hroot]; rfl)).symm
     simp only [honestResp, stepEv,
-      handle_shred_valid env cap σ.st σ.store (bidOf B) i j (B.shred i j) hout rfl rfl hroot' hlast]
-    refine ⟨fun _ _ _ _ _ _ => ⟨rfl, rfl⟩, ?_, ?_⟩
+      handle_shred_valid env cap σ.st σ.store (bidOf B) i j (B.shred i j) hout rfl rfl hroot' hlast rfl]
+    refine ⟨fun _ _ _ _ _ _ => rfl, ?_, ?_⟩
     · intro x hx hne
       exact (done_outstanding _ _ _).mpr ⟨hx, hne⟩
     · have h2 := mu_done B σ.st (Req.shred (bidOf B) i j) hout
